@@ -276,8 +276,8 @@ def run(repo: Repo, rep: Report, tier: str) -> None:
         m = repo.mod(mname)
         for fn in [n for n in ast.walk(m.tree) if isinstance(n, ast.FunctionDef)]:
             q = qualname(fn)
-            if q.startswith("attempt."):
-                continue
+            if q.startswith("attempt.") or q == "attempt":
+                continue  # the containment helper (class or @contextmanager function): decided by the attempt rule
             if mname == "association" and q != "Association._c_store_scp":
                 continue
             calls = [c for c in walk_no_nested(fn) if isinstance(c, ast.Call)]
@@ -309,9 +309,15 @@ def run(repo: Repo, rep: Report, tier: str) -> None:
     # on the attempt's context, the failure is recorded and the exception is suppressed
     from ..minipy import Interp, Obj, Raised, Unsupported
     sc = repo.mod("service_class")
-    ex = repo.func("service_class", "attempt.__exit__")
     aci = sc.classes.get("attempt")
+    if aci is None or "__exit__" not in aci.methods:
+        check_attempt_generator(repo, rep, "attempt")
+        ex = None
+    else:
+        ex = repo.func("service_class", "attempt.__exit__")
     try:
+        if ex is None:
+            raise StopIteration
         for kind in (None, "ValueError", "KeyboardInterrupt", "SystemExit", "GeneratorExit"):
             for with_assoc in (False, True):
                 sent = []
@@ -332,6 +338,8 @@ def run(repo: Repo, rep: Report, tier: str) -> None:
                     rep.check(okx, "attempt", "service_class.attempt.__exit__", f"[{inst}] returns {ret!r}, {len(sent)} response(s) sent{', status ' + hex(sent[0][2]) if sent and isinstance(sent[0][2], int) else ''}, success flag {me.get('_success')}", f"a handler raising {kind} must be answered with exactly one response carrying error_status on the attempt's context, the failure recorded and the exception suppressed - otherwise the request is left without any final response (or gets two)", mod=sc, node=ex)
                 if with_assoc:
                     rep.check(assoc_o.get("abort") == "blocking", "attempt", "service_class.attempt.__exit__", f"[{inst}] abort restored to {assoc_o.get('abort')}", "the blocking abort must be restored when the attempt ends", mod=sc, node=ex)
+    except StopIteration:
+        pass
     except Raised as r_:
         rep.fail("attempt", "service_class.attempt.__exit__", f"raises {r_.kind}", "attempt.__exit__ itself raises: the handler's exception is replaced by another one and no response is sent", mod=sc, node=ex)
     except Unsupported as exc_:
@@ -349,6 +357,44 @@ def run(repo: Repo, rep: Report, tier: str) -> None:
     from ..delegate import delegate
     rep.rule("exchange-framed", "the request's data set is waited for and the final response is cut into exactly the fragments the peer reassembles (C15's fragmentation and reader rules)")
     delegate(repo, rep, tier, "C15", ("overhead", "overhead-count", "order-flags", "one-pdv", "reader-bits", "reader-complete", "message-reset"), "exchange-framed", "the exchange ends without a final response although nobody aborted or released: for some sizes the response's encoder raises out of send_msg (the association is aborted after the Pending responses), or a request whose data set is announced with another legal value is queued without it and the following fragments are taken for a new, invalid message")
+
+def check_attempt_generator(repo, rep, rule: str) -> bool:
+    """`attempt` written as a @contextmanager generator: the block of the caller runs at the `yield`, so the yield
+    must sit in a try whose handler catches *everything* a handler can end with - BaseException or a bare
+    except, not just Exception (sys.exit(), KeyboardInterrupt, asyncio.CancelledError are BaseExceptions) - sends
+    the response carrying error_status exactly once, records the failure and does not re-raise."""
+    sc = repo.mod("service_class")
+    fn = sc.funcs.get("attempt")
+    if fn is None or not any(norm(d).split(".")[-1] == "contextmanager" for d in fn.decorator_list):
+        rep.defer("service_class.attempt is neither a class with __exit__ nor a @contextmanager function")
+        return False
+    ys = [y for y in walk_no_nested(fn) if isinstance(y, ast.Yield)]
+    ok_all = True
+    if len(ys) != 1:
+        rep.fail(rule, "service_class.attempt", f"{len(ys)} yields", "a context manager generator must yield exactly once", mod=sc, node=fn)
+        return False
+    t = enclosing(ys[0], (ast.Try,))
+    in_body = t is not None and any(ys[0] is x for s_ in t.body for x in ast.walk(s_))
+    if not in_body:
+        rep.fail(rule, "service_class.attempt", enclosing(ys[0], (ast.stmt,)), "the yield is not inside a try: nothing the handler raises is turned into a failure response", mod=sc, node=ys[0])
+        return False
+    wide = []
+    for h in t.handlers:
+        names = [] if h.type is None else [norm(x) for x in h.type.elts] if isinstance(h.type, ast.Tuple) else [norm(h.type)]
+        if h.type is None or "BaseException" in names:
+            wide.append(h)
+    caught = sorted({norm(h.type) if h.type is not None else "everything" for h in t.handlers})
+    rep.check(bool(wide), rule, "service_class.attempt", f"the block at the yield is guarded by except {caught}", f"attempt only turns {caught} into the failure response: a handler that ends with a BaseException (sys.exit(), KeyboardInterrupt, asyncio.CancelledError, a user BaseException subclass) leaves the with-block through the generator, the SCP's thread dies and the request gets no response at all (the class form's __exit__ caught whatever was raised)", mod=sc, node=t)
+    ok_all = bool(wide)
+    for h in t.handlers:
+        sends = [c for c in ast.walk(h) if isinstance(c, ast.Call) and (dotted(c.func) or "").endswith("send_msg")]
+        sets = [a for a in ast.walk(h) if isinstance(a, ast.Assign) and isinstance(a.targets[0], ast.Attribute) and a.targets[0].attr == "Status" and "error_status" in norm(a.value)]
+        reraises = [r for r in ast.walk(h) if isinstance(r, ast.Raise)]
+        okh = len(sends) == 1 and len(sets) == 1 and not reraises
+        rep.check(okh, rule, "service_class.attempt", f"except {norm(h.type) if h.type is not None else ''}: {len(sends)} send_msg, {len(sets)} Status = error_status, {len(reraises)} raise", "the handler of attempt must answer with exactly one response carrying error_status and suppress the exception", mod=sc, node=h)
+        ok_all = ok_all and okh
+    return ok_all
+
 
 def check_peer_status_lookup(repo, rep, rule: str = "peer-status-guarded") -> int:
     """A status a peer (the C-STORE sub-operation's SCP, or this AE's own requestor) answered with is looked
